@@ -16,5 +16,7 @@ MCEntries3 == {"rand", "alt", "det"}
 MCRandom3  == [e \in MCEntries3 |-> e # "det"]
 MCSeed3    == {"rand", "alt"}
 MCSeeds12  == 1..12
+MCOneBackend  == {"core"}
+MCBackends    == {"core", "einsum"}
 GraphView  == S
 =============================================================================
